@@ -278,3 +278,49 @@ def frames_overlap_free(frames: list[dict], box: dict | None, margin: float = 1e
                 if dist(ds[i]["position"], ds[j]["position"]) <= ds[i]["radius"] + ds[j]["radius"] + margin:
                     return False
     return True
+
+
+# --------------------------------------------------------------------------- exhaustive lattice
+
+
+def lattice_size(n_frames: int) -> int:
+    """Number of histories in the exhaustive small-lattice space with `n_frames` frames."""
+    return (16 ** n_frames) * 2 * 2
+
+
+def lattice_history(index: int, n_frames: int) -> dict:
+    """Decode history `index` of the exhaustive 1D lattice space.
+
+    Box [0, 8); every frame is a subset of 4 sites with spacing 2; odd frames are shifted by
+    0.75 so that a droplet sees one candidate 0.75 to the right and one 1.25 to the left in the
+    next frame (wrapping around when the box is periodic).  Radius 0.5: only the nearer one
+    overlaps (one-to-one relations); radius 0.7: both overlap (multiple overlaps).  No knife
+    edges: all decision quantities are at least 0.15 away from their thresholds.
+    """
+    periodic = bool(index % 2)
+    index //= 2
+    r = [0.5, 0.7][index % 2]
+    index //= 2
+    frames = []
+    for f in range(n_frames):
+        mask = index % 16
+        index //= 16
+        shift = 0.75 if f % 2 else 0.0
+        drops, ids = [], []
+        for s in range(4):
+            if mask >> s & 1:
+                drops.append({"cls": "SphericalDroplet", "position": [1.0 + 2 * s + shift], "radius": r})
+                ids.append(100 * f + s)  # no ground-truth identity on the lattice
+        frames.append({"droplets": drops, "ids": ids, "t": f})
+    box = {"kind": "cart", "bounds": [[0.0, 8.0]], "shape": [8], "periodic": [periodic]}
+    return {"box": box, "cls": "SphericalDroplet", "frames": frames, "world_events": [],
+            "camera_faults": [], "allow_overlap": False, "small_motion": False, "lattice": True}
+
+
+LATTICE_CONFIGS = [
+    {"method": "overlap", "grid": True}, {"method": "overlap", "grid": False},
+    {"method": "distance", "grid": True}, {"method": "distance", "grid": False},
+    {"method": "distance", "grid": True, "max_dist": 1.0},
+    {"method": "distance", "grid": False, "max_dist": 1.0},
+    {"method": "distance", "grid": True, "max_dist": 0.5},
+]
